@@ -402,6 +402,11 @@ impl BlockData {
             .parent
             .clone()
             .expect("first slice contains a parent, validated in `try_reconstruct_slice`");
+        // a block can only extend a block from an earlier slot
+        if parent.0 >= slot {
+            warn!("parent is not in an earlier slot");
+            return ReconstructBlockResult::Error;
+        }
         let mut parent_switched = false;
 
         let mut transactions = vec![];
@@ -416,6 +421,10 @@ impl BlockData {
                 }
                 if parent_switched {
                     warn!("parent switched more than once");
+                    return ReconstructBlockResult::Error;
+                }
+                if new_parent.0 >= slot {
+                    warn!("parent switched to a block that is not in an earlier slot");
                     return ReconstructBlockResult::Error;
                 }
                 parent_switched = true;
